@@ -627,6 +627,7 @@ func sortedBeforeUse(info *types.Info, fnBody *ast.BlockStmt, after ast.Stmt, ob
 }
 
 func ruleMapRange(c *Ctx) {
+	mapRangeFirstError(c)
 	nRanges, nCallbacks := 0, 0
 	for _, short := range mapRangePkgs {
 		p := c.pkg(short)
@@ -775,4 +776,75 @@ func ruleMapRange(c *Ctx) {
 func identOf(e ast.Expr) *ast.Ident {
 	id, _ := e.(*ast.Ident)
 	return id
+}
+
+// mapRangeFirstError (part of R-MAPRANGE, C19): which error an execution reports must not depend on the iteration
+// order of a Go map. In the set-up code of package interp (everything outside the instruction loop, where `for (k in
+// a)` deliberately has no order), a loop over a map does not return the first error it meets: with two offending
+// entries the error differs from one execution of the same Program to the next.
+func mapRangeFirstError(c *Ctx) {
+	n := 0
+	for _, fn := range c.srcFuncs("interp") {
+		fn := fn
+		if fn.Name() == "execute" || fn.Name() == "callBuiltin" {
+			continue
+		}
+		allInstrs(fn, func(in ssa.Instruction) {
+			rg, ok := in.(*ssa.Range)
+			if !ok {
+				return
+			}
+			if _, isMap := rg.X.Type().Underlying().(*types.Map); !isMap {
+				return
+			}
+			n++
+			// the loop: blocks that can reach the block of the Next instruction again
+			var head *ssa.BasicBlock
+			if refs := rg.Referrers(); refs != nil {
+				for _, r := range *refs {
+					if nx, ok := r.(*ssa.Next); ok {
+						head = nx.Block()
+					}
+				}
+			}
+			if head == nil {
+				return
+			}
+			bad := token.NoPos
+			for b := range reachableFromStrict(head) {
+				if !reachableFromStrict(b)[head] && b != head {
+					// outside the loop - unless it is an exit block reached only from inside
+					inLoopPred := false
+					for _, p := range b.Preds {
+						if p != head && reachableFromStrict(p)[head] && reachableFromStrict(head)[p] {
+							inLoopPred = true
+						}
+					}
+					if !inLoopPred {
+						continue
+					}
+				}
+				if len(b.Instrs) == 0 {
+					continue
+				}
+				ret, ok := b.Instrs[len(b.Instrs)-1].(*ssa.Return)
+				if !ok {
+					continue
+				}
+				for _, rv := range ret.Results {
+					if types.TypeString(rv.Type(), nil) != "error" {
+						continue
+					}
+					if k, isK := rv.(*ssa.Const); isK && k.Value == nil {
+						continue
+					}
+					bad = posOr(ret.Pos(), rg.Pos())
+				}
+			}
+			key := "range-first-error:" + fnKey(fn)
+			c.check(bad == token.NoPos, key, posOr(bad, fn.Pos()), "no loop over a map returns the first error it meets",
+				fnKey(fn)+" returns an error from inside a loop over a map: with two offending entries the one reported depends on the map's iteration order, so repeated executions of one Program (with the same configuration) end with different error messages - iterate over the sorted keys instead")
+		})
+	}
+	c.atLeast("loops over maps in the set-up code of the interpreter", n, 2)
 }
